@@ -5,7 +5,7 @@
      SWF  = TreeWF.WF + the children of every unit lie in its token list one after the other, without
             any overlap (`woven`: toks = g0 ++ child1 ++ g1 ++ child2 ++ ...). This is WF without the
             tolerance for permuted zero-width placeholders (woven implies local_ok).
-     HWF  = every sub-node is SWF as a tree on its own (and only the root may be a File).
+     HWF  = every sub-node is SWF as a tree on its own, and only the root may be a File.
    Definitions only (computable); proofs in TreeEditProofs.v. *)
 From AB Require Import Desc Tree TreeDefs TreeWF.
 From Coq Require Import ZArith List Bool.
@@ -41,15 +41,15 @@ Definition SWF (n : node) : Prop :=
 Definition swf_b (n : node) : bool :=
   wf_b cs n && forallb (fun u => woven_b (unit_toks u) (unit_children u)) (subunits n).
 
+Definition proper_units (n : node) : list unit :=
+  match n with Leaf _ => [] | Tree _ _ _ kids _ => kids_flat (slot_subunits subunits) kids end.
 Definition HWF (root : node) : Prop :=
-  forall n, In (UNode n) (subunits root) -> SWF n /\ (exempt (UNode n) = true -> n = root).
+  (forall n, In (UNode n) (subunits root) -> SWF n)
+  /\ (forall u, In u (proper_units root) -> exempt u = false).
 Definition unit_node (u : unit) : list node := match u with UNode n => [n] | URep _ _ _ _ => [] end.
 Definition hwf_b (root : node) : bool :=
   forallb swf_b (flat_map unit_node (subunits root))
-  && match subunits root with
-     | [] => true
-     | _ :: r => forallb (fun u => negb (exempt u)) r     (* the root is the first unit *)
-     end.
+  && forallb (fun u => negb (exempt u)) (proper_units root).
 End WithClasses.
 
 (* ---- paths and plug ------------------------------------------------------------------------------ *)
